@@ -20,12 +20,12 @@ type layerShape struct {
 }
 
 type twoWayLayer struct {
-	Pkg, Type  string
-	Ser, Dec   string
-	Buf        string // output buffer aligned with decoder offset 0
-	Widths     map[string]int
-	Shapes     []layerShape
-	Computed   map[string]bool // fields whose wire bytes are computed on serialisation (lengths, checksums)
+	Pkg, Type string
+	Ser, Dec  string
+	Buf       string // output buffer aligned with decoder offset 0
+	Widths    map[string]int
+	Shapes    []layerShape
+	Computed  map[string]bool // fields whose wire bytes are computed on serialisation (lengths, checksums)
 }
 
 var twoWayLayers = []twoWayLayer{
